@@ -68,7 +68,7 @@ type ReplState struct {
 }
 
 type replImpl interface {
-	propagate(s *Server, ss *Session, db int, name string, args [][]byte)
+	propagate(s *Server, ss *Session, db int, name string, args [][]byte, reply resp.Value)
 	beginTxn(s *Server)
 	endTxn(s *Server, ss *Session)
 	replconf(s *Server, ss *Session, a [][]byte) resp.Value
@@ -77,9 +77,9 @@ type replImpl interface {
 
 func (r *ReplState) End() int64 { return r.BacklogBase + int64(len(r.Stream)) }
 
-func (s *Server) propagate(ss *Session, db int, name string, args [][]byte) {
+func (s *Server) propagate(ss *Session, db int, name string, args [][]byte, reply resp.Value) {
 	if s.Repl != nil && s.Repl.impl != nil {
-		s.Repl.impl.propagate(s, ss, db, name, args)
+		s.Repl.impl.propagate(s, ss, db, name, args, reply)
 	}
 }
 func (s *Server) beginPropagateTxn() {
